@@ -212,6 +212,16 @@ _PATCH_NOTES = {
     "PE3": "api: header constants and error converters moved to submodules", "PE4": "bin: command()/ServerArgs moved into mod args", "PF1": "sqlite: schema loop as try_for_each over an array; hyphenated().to_string()",
     "PF2": "bin: allow-list built by a loop, map(Clone::clone), try_fold", "PF3": "add_version: loop/match over the stream, hyphenated()/format! header values",
     "PF4": "core: snapshot walk as `for remaining in (0..N).rev()` with a found flag",
+    "RA1": "core: get_child_version as one guarded match, let-else in get_snapshot", "RA2": "inmemory: Default, InnerTxn::new constructor, Drop as assert",
+    "RA3": "core: misleading locals renamed, id aliases used consistently", "RA4": "core: shared client_txn() prologue returning (txn, client)",
+    "RB1": "sqlite: path handling in new(), DB_FILE_NAME constant", "RB2": "sqlite: snapshot_from_columns helper", "RB3": "sqlite: Txn::begin constructor issuing BEGIN IMMEDIATE",
+    "RB4": "sqlite: contextualised query result returned directly", "RC1": "handlers: Path parameter named after the id, dereferenced at use", "RC2": "server: web::Data<ServerState> instead of Data<Arc<..>>",
+    "RC3": "bin: one small function per clap argument", "RC4": "lib: WebServer::new/config as named lets, NO_CACHING tuple constant", "RD1": "core: accepts_parent predicate + guarded match + snapshot_urgency helper (combined)",
+    "RD2": "sqlite: client_from_row fn + direct returns + let-else + parameter dropped (combined)", "RD3": "api: error-mapping fn, header value fn, create_client_if_absent helper (combined)",
+    "RD4": "inmemory: key() helper, match, delegation to get_version, let-else (combined)", "RE1": "api: client_id_header as a free fn taking (&ServerState, &HeaderMap)",
+    "RE2": "core: urgency classifiers take the scalar threshold instead of &ServerConfig", "RE3": "sqlite: helper returns rusqlite::Result, callers add the context", "RE4": "bin: ServerArgs::new takes &ArgMatches",
+    "RF1": "core: 13 tiny everyday touches (derives, inline, trace logs, bail!, a.max(b), as_mut)", "RF2": "sqlite: 13 tiny touches (Self, inlined temps, array, params!, bail!)",
+    "RF3": "api/lib: 14 tiny touches (as_ref, debug logs, parentheses, annotations, Arc::clone)", "RF4": "bin: 8 tiny touches (imports, docs, derives, turbofish, debug logs)",
 }
 for _p in sorted(_glob.glob(_os.path.join(_PD, "*.diff"))):
     _n = _os.path.basename(_p)[:-5]
